@@ -540,7 +540,7 @@ class Interp:
                 return fn + "::" + m.group(3)
             # closures: path::{closure#0}::promoted[..] appear verbatim
         # item nested in a method / closure:  Type::method[::{closure#n}]::NAME
-        m = re.match(r"^(.*?)((?:::\{closure#\d+\})+)::(\w+)$", plain)
+        m = re.match(r"^(.*?)((?:::\{closure#\d+\})+)::(\w+|promoted\[\d+\])$", plain)
         if m:
             fn = self.resolve_fn(m.group(1), m.group(1))
             if fn is not None:
